@@ -682,6 +682,58 @@ func vcTypedCase(r *vcRec, rng *rand.Rand) {
 
 type vcSeen struct{ id, data string }
 
+// payloads that look like parts of the envelope (a map with a "status", an "id", a "data" key; a
+// string that spells a whole entry) go through a running worker unchanged, every one of them
+func vcEndToEndStructured(r *vcRec, rng *rand.Rand) {
+	r.op++
+	stub := &vcStubFifo{}
+	var mu sync.Mutex
+	var seen []string
+	pq := NewWorker(func(j Job[map[string]string]) {
+		b, _ := json.Marshal(j.Data())
+		mu.Lock()
+		seen = append(seen, j.ID()+"="+string(b))
+		mu.Unlock()
+	}, 1).WithPersistentQueue(stub)
+	w := pq.Worker()
+	go func() {
+		for range w.Errs() {
+		}
+	}()
+	payloads := []map[string]string{
+		{"status": "Closed"}, {"status": "Finished", "id": "x"}, {"note": "plain"},
+		{"data": "{\"id\":\"q\",\"status\":\"Closed\"}"}, {"status": "Processing", "data": "1"}, {"id": "", "status": "Created"},
+	}
+	var want []string
+	for i, p := range payloads {
+		id := "s" + strconv.Itoa(i)
+		if !pq.Add(p, WithJobId(id)) {
+			r.viol("e2e", "Add of a structured payload failed (%v)", p)
+			continue
+		}
+		b, _ := json.Marshal(p)
+		want = append(want, id+"="+string(b))
+	}
+	deadline := time.Now().Add(10 * time.Second)
+	for {
+		mu.Lock()
+		k := len(seen)
+		mu.Unlock()
+		if k >= len(want) || time.Now().After(deadline) {
+			break
+		}
+		time.Sleep(200 * time.Microsecond)
+	}
+	mu.Lock()
+	got := append([]string(nil), seen...)
+	mu.Unlock()
+	r.stats["e2e.structured"] += len(want)
+	if strings.Join(got, " ") != strings.Join(want, " ") {
+		r.viol("e2e", "structured payloads: the worker saw %q, stored were %q", got, want)
+	}
+	w.Stop()
+}
+
 // good and bad entries interleaved in a stub persistent queue consumed by a real worker
 // (concurrency 1): the worker function must see exactly the good ones, in order, with their ids
 // and payloads. Oracle only (no records): the system-level part of C12 is decided elsewhere.
@@ -932,6 +984,7 @@ func TestVerifCodecDiff(t *testing.T) {
 		r.ep = cases + i
 		vcEndToEnd(r, rng)
 	}
+	vcEndToEndStructured(r, rng)
 
 	r.stats["cases"] = cases
 	r.stats["oracle_violations"] = r.viols
